@@ -57,7 +57,7 @@ type Program struct {
 	Owners  []string `json:"owners"`
 	NKeys   int      `json:"nkeys"`
 	Steps   []Step   `json:"steps"`
-	Probe   bool     `json:"probe"` // append IsLocked(o,[k]) for every owner and key
+	Probe   bool     `json:"probe"` // append IsLocked(o,[k]) for every owner and key, a tick, and the same again
 }
 
 type Event map[string]interface{}
@@ -153,9 +153,6 @@ func newRedis(owners []string, perOwner bool) *service {
 				fatal("listen: %v", err)
 			}
 			c := redisClient(addr)
-			if err := c.Ping(ctx); err != nil {
-				fatal("ping: %v", err)
-			}
 			s.lockers[o] = c
 			s.closers = append(s.closers, func() { c.Close() })
 		}
@@ -244,9 +241,15 @@ func hasTick(p *Program) bool {
 func withProbes(p *Program) []Step {
 	steps := append([]Step{}, p.Steps...)
 	if p.Probe {
-		for _, o := range p.Owners {
-			for k := 1; k <= p.NKeys; k++ {
-				steps = append(steps, Step{O: o, Op: "IsLocked", Ks: []int{k}})
+		// who holds what now, and again one unit later (shows a TTL that is shorter than granted)
+		for round := 0; round < 2; round++ {
+			if round == 1 {
+				steps = append(steps, Step{O: "-", Op: "Tick", Ks: []int{}})
+			}
+			for _, o := range p.Owners {
+				for k := 1; k <= p.NKeys; k++ {
+					steps = append(steps, Step{O: o, Op: "IsLocked", Ks: []int{k}})
+				}
 			}
 		}
 	}
